@@ -838,6 +838,20 @@ def b_isinstance(interp, v, t):
     return isinstance(v, t)
 
 
+def b_type(interp, v, *rest):
+    if rest:
+        raise Unsupported("three-argument type()")
+    if isinstance(v, np.ndarray):
+        return np.ndarray          # an SArr stands for a plain ndarray of its declared dtype
+    if isinstance(v, GList):
+        return list
+    if isinstance(v, SB):
+        return bool if v.isbool else int
+    if isinstance(v, (SL, SV)):
+        raise Unsupported("type() of a symbolic value")
+    return type(v)
+
+
 def b_int(interp, v=0, base=None):
     if base is not None:
         if is_sym(v):
@@ -912,7 +926,7 @@ def m_quantum_circuit(interp, *args, **kw):
 BUILTIN_MODELS = {
     len: b_len, range: b_range, list: b_list, tuple: b_tuple, all: b_all, any: b_any, sum: b_sum, enumerate: b_enumerate,
     zip: b_zip, map: b_map, filter: b_filter, reversed: b_reversed, isinstance: b_isinstance, int: b_int, bool: b_bool,
-    min: b_min, max: b_max, sorted: b_sorted, str: b_str, _copy.deepcopy: m_deepcopy, itertools.product: m_product,
+    min: b_min, max: b_max, sorted: b_sorted, str: b_str, type: b_type, _copy.deepcopy: m_deepcopy, itertools.product: m_product,
 }
 
 USE_CIRCUIT_MODEL = [False]
